@@ -149,7 +149,7 @@ pub fn gen_valid(c: &mut Chooser) -> Case {
         dirs_at(&mut doc, site).push(d);
     }
     // 2. structural additions
-    match c.choose("add", 12) {
+    match c.choose("add", 13) {
         0 => {}
         1 => doc.defs[2].fields.push(fld("extra", Ty::list(Ty::list(Ty::nn(Ty::named("Int")))))),
         2 => doc.defs[5].fields.push(FieldDef { args: Some(vec![ivd("a", Ty::nn(Ty::list(Ty::named("Kind"))), Some(Value::List(P::default(), vec![Value::Enum(P::default(), "A".into())])))]), ..fld("withArgs", Ty::named("Result")) }),
@@ -230,6 +230,32 @@ pub fn gen_valid(c: &mut Chooser) -> Case {
                     f.desc = Some((P::default(), "f".into()));
                 }
             }
+        }
+        11 => {
+            // an interface that implements another one only through an extension, and a covariant field
+            // type that is valid only because of it
+            let mut b = TsDef::new(TsKind::Interface, Some("Base2"));
+            b.fields = vec![fld("b", Ty::named("Int"))];
+            doc.defs.push(b);
+            let mut m = TsDef::new(TsKind::Interface, Some("Mid"));
+            m.fields = vec![fld("b", Ty::named("Int")), fld("m", Ty::named("Int"))];
+            doc.defs.push(m);
+            let mut e = TsDef::new(TsKind::Interface, Some("Mid"));
+            e.ext = true;
+            e.implements = vec![nm("Base2")];
+            doc.defs.push(e);
+            let mut i = TsDef::new(TsKind::Object, Some("Impl"));
+            i.implements = vec![nm("Mid"), nm("Base2")];
+            i.fields = vec![fld("b", Ty::named("Int")), fld("m", Ty::named("Int"))];
+            doc.defs.push(i);
+            let mut h = TsDef::new(TsKind::Interface, Some("HasB"));
+            h.fields = vec![fld("x", Ty::named("Base2"))];
+            doc.defs.push(h);
+            let mut t = TsDef::new(TsKind::Object, Some("HasBImpl"));
+            t.implements = vec![nm("HasB")];
+            t.fields = vec![fld("x", Ty::named("Mid"))];
+            doc.defs.push(t);
+            tags.push("interface-implements-through-extension".into());
         }
         _ => {
             // default values of every kind on arguments and input fields
